@@ -1295,6 +1295,47 @@ pub fn run(ctx: &mut Ctx) {
         });
     }
 
+    // fractions whose reduction runs through a prescribed sequence of Euclidean steps: coprime cores
+    // (a', b') built backwards from quotient lengths, both multiplied by a long shared factor g, so
+    // that the gcd inside from_parts divides long remainders with long quotients in later steps
+    {
+        let qlens: [usize; 4] = [0, 1, 34, 70];
+        let mut cores: Vec<(BigInt, BigInt)> = vec![];
+        for (i, &q1) in qlens.iter().enumerate() {
+            for (j, &q2) in qlens.iter().enumerate() {
+                for (k, &q3) in qlens.iter().enumerate() {
+                    if !ctx.quick() || (i + j + k) % 2 == 0 {
+                        let (mut a, mut b) = (BigInt::one(), BigInt::zero());
+                        for (n, &ql) in [q1, q2, q3].iter().enumerate() {
+                            let q = if ql == 0 { BigInt::from(1 + n as u32) } else { bi(ql, ["lcgB", "top1p1", "ones"][(i + n) % 3]) };
+                            let na = &q * &a + &b;
+                            b = a;
+                            a = na;
+                        }
+                        cores.push((a, b));
+                    }
+                }
+            }
+        }
+        let gs: Vec<BigInt> = ctx.pick(vec![bi(34, "lcgA"), bi(70, "ones")], vec![bi(3, "lcgA"), bi(34, "lcgA"), bi(70, "ones"), bi(130, "lcgA"), bi(200, "sparse")]);
+        let (nc, ngq) = (cores.len() as u64, gs.len() as u64);
+        let (cr, gr2) = (&cores, &gs);
+        let one = BigInt::one();
+        let oner = &one;
+        ctx.sweep("shape.quotients", nc * ngq * 2, |i, rec| {
+            let [ic, ig, sw] = unflatten(i, [nc, ngq, 2]);
+            let (a, b) = &cr[ic];
+            let (xn, xd) = (a * &gr2[ig], b * &gr2[ig]);
+            if xd.is_zero() {
+                return;
+            }
+            if sw == 0 { shape_case(rec, &xn, &xd, oner, oner, oner, 0, false, false) } else { shape_case(rec, &xd, &xn, oner, oner, oner, 0, true, false) }
+            rec.hit("from_parts:long-shared-factor,prescribed-quotients");
+            rec.sample(|| format!("core #{} ({} / {} words) x shared factor of {} words", ic, word_len(a.magnitude()), word_len(b.magnitude()), word_len(gr2[ig].magnitude())));
+        });
+        ctx.require_classes("shape.quotients", &["from_parts:long-shared-factor,prescribed-quotients"]);
+    }
+
     // pow / cubic of shape fractions
     let pexps: Vec<usize> = ctx.pick(vec![0, 1, 2, 3, 5], vec![0, 1, 2, 3, 4, 5, 7, 16]);
     let np = pexps.len() as u64;
